@@ -24,6 +24,7 @@ CHECKS = {
     'C09': 'harness.c09',
     'C10': 'harness.c10',
     'C12': 'harness.c12',
+    'C13': 'harness.c13',
     'C14': 'harness.c14',
     'C16': 'harness.c16',
     'C17': 'harness.c17',
